@@ -220,3 +220,56 @@ def corpus_repr(tier, seed):
         A(rnd.choice(REPRS), rnd.choice(pats), rnd.choice(DISABLED_PLACEMENTS), n=rnd.randint(3, 8), payload=rnd.random() < 0.4,
           generic=rnd.random() < 0.3, k0=rnd.randint(0, 40))
     return out
+
+
+# ---------------------------------------------------------------------------------------
+# C10 EnumTable (field-less enums, at least one enabled variant)
+
+TABLE_IDENTS = ['Red', 'DarkBlue', 'Green2', 'HTTPStatus', 'X1Y2', 'Yellow', 'Orange9Light', 'A']
+
+def table_program(namer, n_enabled, disabled_at=(), k0=0):
+    total = n_enabled + len(disabled_at)
+    vs = []
+    ei = 0
+    di = 0
+    for pos in range(total):
+        if pos in disabled_at:
+            v = Variant(GONE[di % len(GONE)], 'unit')
+            v.disabled = True
+            di += 1
+        else:
+            v = Variant(TABLE_IDENTS[(ei + k0) % len(TABLE_IDENTS)], 'unit')
+            ei += 1
+        vs.append(v)
+    p = Program(namer.next('Tb'), vs, derives=['EnumTable'])
+    p.std_derives = ['Debug', 'PartialEq', 'Clone', 'Copy']
+    p.tags = ['N=%d' % n_enabled, 'disabled_at=%s' % (list(disabled_at),)]
+    return p
+
+def corpus_table(tier, seed):
+    nm = Namer()
+    out = []
+    A = lambda *a, **k: out.append(table_program(nm, *a, **k))
+    A(1)
+    A(2, (0,))
+    A(3, (1,), k0=1)
+    A(4, (4,), k0=2)
+    A(5, (1, 2), k0=3)
+    A(6, (), k0=0)
+    if tier == 'quick':
+        return out
+    k = 0
+    for n in range(1, 7):
+        for nd in range(0, 3):
+            for pos in itertools.combinations(range(n + nd), nd):
+                if n > 3 and k % 3:
+                    k += 1
+                    continue
+                A(n, pos, k0=k)
+                k += 1
+    rnd = random.Random(seed)
+    for _ in range(8):
+        n = rnd.randint(1, 8)
+        nd = rnd.randint(0, 3)
+        A(n, tuple(sorted(rnd.sample(range(n + nd), nd))), k0=rnd.randint(0, 7))
+    return out
